@@ -42,3 +42,9 @@ func init() {
 	prop("C13", "C13-R1", "C13-R2", "C13-R3", "C01-R7")
 	prop("C08", "C08-R1", "C01-R1", "C01-R3", "C01-R4")
 }
+
+func init() {
+	prop("C09", "C09-R1", "C09-R3", "C09-R4", "C07-R3")
+	prop("C10", "C10-R1", "C10-R2", "C10-R3", "C10-R4")
+	prop("C07", "C07-R2", "C07-R3")
+}
